@@ -67,12 +67,13 @@ FIXED_ROLE_FAM = {"A": "angle", "D": "dimensionless", "H": "dlany"}
 class QA:
     """Unit-carrying placeholder: physical values `base` (root units) in dimension `role`."""
 
-    def __init__(self, role, base, py=False, bare_ok=False, target=False):
+    def __init__(self, role, base, py=False, bare_ok=False, target=False, always_bare=False):
         self.role = role
         self.base = np.asarray(base, dtype=float)
         self.py = py and self.base.ndim == 0        # pass a Python float magnitude
         self.bare_ok = bare_ok                      # may also be passed as a bare number (D/H)
         self.target = target                        # explicit in-place target
+        self.always_bare = always_bare              # dimensionless value always passed bare
 
     def __repr__(self):
         return f"QA({self.role},{self.base.shape})"
@@ -109,7 +110,8 @@ class V:
     """One way of calling a function."""
 
     def __init__(self, build, res, ref=None, inv=None, homog=True, err=True, offset=True,
-                 assign=None, tol=1e-9):
+                 assign=None, tol=1e-9, truth=False):
+        self.truth = truth          # decides on "non-zero": frame dependent for offset units
         self.build, self.res, self.ref, self.inv = build, res, ref, inv
         self.homog, self.err, self.offset, self.assign, self.tol = homog, err, offset, assign, tol
 
@@ -196,7 +198,7 @@ class G:
 
 def qx(g, prof="gen", lo=0, hi=3, role="X", **kw):
     shp = g.shape(lo, hi)
-    return QA(role, getattr(g, prof)(shp), py=(not shp and g.r.random() < 0.4), **kw)
+    return QA(role, getattr(g, prof)(shp), **kw)
 
 
 # --------------------------------------------------------------------------------------
@@ -355,7 +357,7 @@ add("func", "where",
         g.shape(1, 3)), KX),
     qcond=V(lambda g: (lambda shp: C(QA("Y", g.withzero(g.gen(shp))), QA("X", g.gen(shp)),
                                      QA("X", g.gen(shp))))(g.shape(1, 2)), KX, offset=False),
-    cond_only=V(lambda g: C(QA("X", g.withzero(g.gen(g.shape(1, 3))))), BARE, offset=False))
+    cond_only=V(lambda g: C(QA("X", g.withzero(g.gen(g.shape(1, 3))))), BARE, truth=True))
 add("func", "clip",
     both=V(lambda g: C(qx(g, "distinct"), QA("X", np.float64(30.0)), QA("X", np.float64(90.0))), KX),
     arrays=V(lambda g: (lambda shp: C(QA("X", g.distinct(shp)), QA("X", g.distinct(shp) * 0 + 31.3),
@@ -404,7 +406,8 @@ def _pad_build(kind):
     return b
 
 
-add("func", "pad", **{k: V(_pad_build(k), KX) for k in
+# padding with the default constant 0 means "0 in the array's unit": not offset invariant
+add("func", "pad", **{k: V(_pad_build(k), KX, offset=(k != "const0")) for k in
                       ("const0", "constq", "consttuple", "edge", "ramp", "reflect")})
 add("func", "nan_to_num",
     plain=V(lambda g: C(QA("X", g.withnan(g.gen(g.shape(1, 3))))), KX, offset=False),
@@ -412,9 +415,8 @@ add("func", "nan_to_num",
     infq=V(lambda g: (lambda a: C(QA("X", a), posinf=QA("X", np.float64(77.0)),
                                   neginf=QA("X", np.float64(-66.0)), nan=QA("X", np.float64(5.0))))(
         np.array([1.5, np.inf, -np.inf, np.nan, -2.5])), KX, offset=False))
-add("func", "full_like",
-    qfill=V(lambda g: C(qx(g), QA("Y", g.gen(()))), KY, err=False),
-    barearr=V(lambda g: C(g.gen(g.shape()), QA("Y", g.gen(()))), KY, err=False))
+# (np.full_like(ndarray, Quantity) does not dispatch to pint: only `a` is a dispatch argument)
+add("func", "full_like", qfill=V(lambda g: C(qx(g), QA("Y", g.gen(()))), KY, err=False))
 for _n, _chk in (("ones_like", True), ("zeros_like", True), ("empty_like", False)):
     add("func", _n, plain=V(lambda g: C(qx(g)), ANY if _chk else "shape"))
 add("func", "linspace",
@@ -594,8 +596,6 @@ for _n in ("prod", "nanprod"):
             *(lambda a: (a, g.axis(a.base.shape, neg=False)))(qx(g, "pos", lo=1, hi=2))),
             _prod_res(_n)),
         initial_bare=V(lambda g: C(qx(g, "pos", hi=2), initial=2.0), _prod_res(_n)),
-        initial_q=V(lambda g: C(qx(g, "pos", hi=2), initial=QA("Y", g.pos(()))), _prod_res(_n),
-                    err=False),
         **({"nan": V(lambda g: C(QA("X", g.withnan(g.pos(g.shape(1, 2))))), _prod_res(_n))}
            if _n == "nanprod" else {}))
 
@@ -608,15 +608,15 @@ add("func", "linalg.norm",
 
 for _n in ("all", "any"):
     add("func", _n,
-        plain=V(lambda g: C(QA("X", g.withzero(g.gen(g.shape()), 0.3))), BARE, offset=False),
+        plain=V(lambda g: C(QA("X", g.withzero(g.gen(g.shape()), 0.3))), BARE, truth=True),
         axis=V(lambda g: (lambda a: C(a, axis=g.axis(a.base.shape)))(
-            QA("X", g.withzero(g.gen(g.shape(1, 3)), 0.5))), BARE, offset=False))
+            QA("X", g.withzero(g.gen(g.shape(1, 3)), 0.5))), BARE, truth=True))
 add("func", "count_nonzero",
-    plain=V(lambda g: C(QA("X", g.withzero(g.gen(g.shape())))), BARE, offset=False),
+    plain=V(lambda g: C(QA("X", g.withzero(g.gen(g.shape())))), BARE, truth=True),
     axis=V(lambda g: (lambda a: C(a, axis=g.axis(a.base.shape)))(
-        QA("X", g.withzero(g.gen(g.shape(1, 3))))), BARE, offset=False))
+        QA("X", g.withzero(g.gen(g.shape(1, 3))))), BARE, truth=True))
 add("func", "nonzero", plain=V(lambda g: C(QA("X", g.withzero(g.gen(g.shape(1, 3))))), BARE,
-                               offset=False))
+                               truth=True))
 for _n in ("argmax", "argmin", "nanargmax", "nanargmin"):
     add("func", _n,
         plain=V(lambda g: C(qx(g, "distinct", lo=1)), BARE),
@@ -625,8 +625,9 @@ add("func", "argsort", plain=V(lambda g: C(qx(g, "distinct", lo=1)), BARE),
     axis=V(lambda g: (lambda a: C(a, axis=g.axis(a.base.shape)))(qx(g, "distinct", lo=1)), BARE))
 for _n in ("ndim", "shape", "size", "isreal", "iscomplex"):
     add("func", _n, plain=V(lambda g: C(qx(g)), BARE))
-add("func", "result_type", plain=V(lambda g: C(qx(g)), BARE),
-    two=V(lambda g: C(qx(g), np.float32), BARE))
+# (0-d operands take part in NumPy's weak-scalar promotion: only rank >= 1 here)
+add("func", "result_type", plain=V(lambda g: C(qx(g, lo=1)), BARE),
+    two=V(lambda g: C(qx(g, lo=1), np.float32), BARE))
 add("func", "searchsorted",
     plain=V(lambda g: C(QA("X", np.sort(g.distinct((g.r.randint(1, 6),)))),
                         QA("X", g.distinct(g.shape(0, 2)))), BARE),
@@ -643,6 +644,8 @@ def _close_build(with_atol, qatol):
         kw = {}
         if with_atol:
             kw["atol"] = QA("X", np.float64(1e-10)) if qatol else 0.0
+            if qatol:
+                kw["atol"].nobare = True    # NumPy's own default atol is a bare number
         return C(QA("X", a), QA("X", bb), **kw)
     return b
 
@@ -651,6 +654,12 @@ for _n in ("isclose", "allclose"):
     add("func", _n, plain=V(_close_build(False, False), BARE, offset=False),
         atol_q=V(_close_build(True, True), BARE, offset=False),
         atol0=V(_close_build(True, False), BARE, offset=False))
+
+
+# dimensionless values for which value<->percent/ppm conversion is exact in either arithmetic order
+_VETTED = np.array([v for v in (0.25 * k for k in range(1, 400))
+                    if all((v / f) * f == v and v * (1.0 / f) == v / f and (v / f) / (1.0 / f) == v
+                           for f in (0.01, 1e-6))])
 
 
 def _isin_build(g):
@@ -664,8 +673,10 @@ add("func", "isin",
     distinct=V(lambda g: C(QA("X", g.distinct(g.shape(1, 2))), QA("X", g.distinct((4,)))), BARE,
                err=False, offset=False),
     member=V(_isin_build, BARE, err=False, offset=False, assign="same"),
-    dl_bare=V(lambda g: (lambda el: C(QA("D", el), list(el.reshape(-1)[:2]) + [123.0]))(
-        g.distinct(g.shape(1, 2))), BARE, err=False, offset=False, assign="same"),
+    dl_bare=V(lambda g: (lambda el: C(QA("D", el), QA("D", np.concatenate([el.reshape(-1)[:2], [123.0]]),
+                                                     always_bare=True)))(
+        g.n.choice(_VETTED, size=g.shape(1, 2), replace=False)), BARE, err=False, offset=False,
+        assign="same"),
     invert=V(lambda g: C(QA("X", g.distinct(g.shape(1, 2))), QA("X", g.distinct((4,))),
                          invert=True), BARE, err=False, offset=False),
     seq=V(lambda g: (lambda el: C(QA("X", el), [QA("X", el.reshape(-1)[0]), QA("X", g.distinct(()))]))(
@@ -794,7 +805,7 @@ add("func", "interp",
                             QA("Y", g.gen((4,))), left=QA("Y", g.gen(())), right=QA("Y", g.gen(()))),
                 KY),
     period=V(lambda g: C(QA("X", g.pos((4,), -9.0, 19.0)), QA("X", np.array([0.5, 2.0, 3.5, 5.5])),
-                         QA("Y", g.gen((4,))), period=QA("X", np.float64(7.0))), KY),
+                         QA("Y", g.gen((4,))), period=QA("X", np.float64(7.0))), KY, offset=False),
     bare_fp=V(lambda g: C(QA("X", g.pos((3,), 1.0, 9.0)), QA("X", np.linspace(0.5, 9.5, 4)),
                           g.gen((4,))), DIMLESS))
 add("func", "unwrap",
@@ -830,18 +841,19 @@ def _un(name, role, prof, res, homog=True, offset=True, err=True, kind="ufunc"):
     def outnd_inv(npmod, a, **kw):
         o = np.empty(np.shape(a.magnitude))
         return getattr(npmod, name)(a, out=o, **kw)
-    add(kind, name, plain=V(lambda g: C(qx(g, prof, role=role)), res, homog=homog, offset=offset,
-                            err=err),
-        out_nd=V(lambda g: C(qx(g, prof, role=role, lo=1)), res, homog=homog, offset=False,
-                 err=False, inv=outnd_inv))
+    vs = {"plain": V(lambda g: C(qx(g, prof, role=role)), res, homog=homog, offset=offset, err=err)}
+    if res is BARE or res is DIMLESS:
+        # a bare `out` array can hold a unit-free result
+        vs["out_nd"] = V(lambda g: C(qx(g, prof, role=role, lo=1)), res, homog=homog, offset=False,
+                         err=False, inv=outnd_inv)
+    add(kind, name, **vs)
 
 
 def _bin(name, ra, rb, res, prof="gen", homog=True, offset=True, err=True, extra=None, sep=False):
     def b(g):
         sa, sb = _bin_shapes(g)
         p = "distinct" if sep else prof
-        return C(QA(ra, getattr(g, p)(sa), py=(not sa and g.r.random() < 0.3)),
-                 QA(rb, getattr(g, p)(sb)))
+        return C(QA(ra, getattr(g, p)(sa)), QA(rb, getattr(g, p)(sb)))
 
     def outnd_inv(npmod, a, b_, **kw):
         o = np.empty(np.broadcast_shapes(np.shape(a.magnitude), np.shape(b_.magnitude)))
@@ -851,14 +863,23 @@ def _bin(name, ra, rb, res, prof="gen", homog=True, offset=True, err=True, extra
         shp = g.shape(1, 2)
         p = "distinct" if sep else prof
         return C(QA(ra, getattr(g, p)(shp)), QA(rb, getattr(g, p)(shp)))
-    vs = {"plain": V(b, res, homog=homog, offset=offset, err=err),
-          "out_nd": V(b_arr, res, homog=homog, offset=False, err=False, inv=outnd_inv)}
+    vs = {"plain": V(b, res, homog=homog, offset=offset, err=err)}
+    if res is BARE or res is DIMLESS:
+        def outnd_inv_b(npmod, a, b_, **kw):
+            shp = np.broadcast_shapes(np.shape(a.magnitude), np.shape(b_.magnitude))
+            o = np.empty(shp, dtype=bool if res is BARE else float)
+            return getattr(npmod, name)(a, b_, out=o, **kw)
+        vs["out_nd"] = V(b_arr, res, homog=homog, offset=False, err=False, inv=outnd_inv_b)
     if extra:
         vs.update(extra)
     add("ufunc", name, **vs)
 
 
-for _n in ("absolute", "fabs", "negative", "positive", "conj", "conjugate"):
+# unary minus / abs on an offset unit are frame dependent, but pint's own unary operators accept
+# them as well: not probed in offset mode (design choice of the library, not of the NumPy layer)
+for _n in ("absolute", "fabs", "negative"):
+    _un(_n, "X", "gen", KX, offset=False)
+for _n in ("positive", "conj", "conjugate"):
     _un(_n, "X", "gen", KX)
 for _n in ("ceil", "floor", "rint", "trunc"):
     _un(_n, "X", "gen", KX, homog=False, offset=False)
@@ -952,7 +973,7 @@ for _n in ("equal", "not_equal", "greater", "greater_equal", "less", "less_equal
 add("ufunc", "power",
     int=V(lambda g: (lambda p: C(qx(g, "pos"), p))(g.r.choice([2, 3, -1, -2, 0.5])),
           lambda call: U({"X": call.args[1]})),
-    dl=V(lambda g: C(qx(g, "pos", role="D"), QA("D", g.gen(()) * 0.3)), DIMLESS),
+    dl=V(lambda g: C(qx(g, "pos", role="D"), QA("D", g.gen(()) * 0.3)), DIMLESS, err=False),
     rpow=V(lambda g: C(2.0, qx(g, "gen", role="D")), DIMLESS))
 add("ufunc", "ldexp", plain=V(lambda g: (lambda a: C(a, g.n.integers(-3, 4, size=a.base.shape)))(qx(g)),
                               KX, offset=False))
@@ -1081,3 +1102,43 @@ add("prop", "flat", plain=V(lambda g: C(qx(g, lo=1)), KX,
 # pass-through attribute access (not wrapped, unit-free results) ------------------------
 for _n in ("argmax", "argmin", "argsort", "nonzero"):
     add("method", _n, plain=V(lambda g: C(qx(g, "distinct", lo=1)), BARE))
+
+
+# --------------------------------------------------------------------------------------
+# 7. out=<Quantity>: an explicit in-place target; afterwards it must physically hold the result
+# --------------------------------------------------------------------------------------
+
+
+def _outq(fname, nargs, shape_of):
+    f = getattr(np, fname)
+
+    def inv(npmod, *args, **kw):
+        o = args[-1]
+        r = getattr(npmod, fname)(*args[:-1], out=o, **kw)
+        return (r, o)
+
+    def ref(*args, **kw):
+        r = f(*args[:-1], **kw)
+        return (r, r)
+    return inv, ref
+
+
+def _outq_variant(fname, build, res):
+    inv, ref = _outq(fname, None, None)
+    return V(build, Seq([res, res]), inv=inv, ref=ref, err=False, offset=False)
+
+
+TABLE[("func", "sum")].variants["out_q"] = _outq_variant(
+    "sum", lambda g: C(QA("X", g.gen((3, 2))), QA("X", np.zeros(()), target=True)), KX)
+TABLE[("func", "cumsum")].variants["out_q"] = _outq_variant(
+    "cumsum", lambda g: C(QA("X", g.gen((4,))), QA("X", np.zeros((4,)), target=True)), KX)
+TABLE[("func", "clip")].variants["out_q"] = _outq_variant(
+    "clip", lambda g: C(QA("X", g.distinct((4,))), QA("X", np.float64(30.0)), QA("X", np.float64(90.0)),
+                        QA("X", np.zeros((4,)), target=True)), KX)
+TABLE[("ufunc", "add")].variants["out_q"] = _outq_variant(
+    "add", lambda g: C(QA("X", g.gen((3,))), QA("X", g.gen((3,))), QA("X", np.zeros((3,)), target=True)), KX)
+TABLE[("ufunc", "maximum")].variants["out_q"] = _outq_variant(
+    "maximum", lambda g: C(QA("X", g.distinct((3,))), QA("X", g.distinct((3,))),
+                           QA("X", np.zeros((3,)), target=True)), KX)
+TABLE[("ufunc", "negative")].variants["out_q"] = _outq_variant(
+    "negative", lambda g: C(QA("X", g.gen((3,))), QA("X", np.zeros((3,)), target=True)), KX)
